@@ -30,7 +30,7 @@ from deeprob.spn.structure.node import Sum, Product
 
 RecLeaf = type('RecLeaf', (Leaf,), {m: (lambda self, *a, **k: None) for m in Leaf.__abstractmethods__})
 
-DEFAULT_DRIVER = os.environ.get('DEEPROB_DRIVER', '/verif/lean/.lake/build/bin/driver')
+DEFAULT_DRIVER = os.environ.get('DEEPROB_DRIVER', __import__('os').path.join(__import__('os').path.dirname(__import__('os').path.dirname(__import__('os').path.dirname(__import__('os').path.abspath(__file__)))), 'lean', '.lake', 'build', 'bin', 'driver'))
 
 
 class Diverged(Exception):
